@@ -359,7 +359,19 @@ func (ch *fakeChan) Publish(exc, route string, msg []byte, opt wabbit.Option) er
 	return nil
 }
 
-func (ch *fakeChan) Close() error { ch.closeNow(); return nil }
+// Close is not called by the transporter as it stands; a repaired transporter that drops its
+// channel calls it while holding channelLock, so it must not go through closeNow's lock.
+func (ch *fakeChan) Close() error {
+	if !ch.closed {
+		ch.closed = true
+		close(ch.notifyClose)
+		ch.backlog = nil
+		for len(ch.queue) > 0 {
+			<-ch.queue
+		}
+	}
+	return nil
+}
 
 // unused parts of wabbit.Channel
 func (ch *fakeChan) Ack(tag uint64, multiple bool) error                { return nil }
@@ -531,19 +543,19 @@ func caseGallina(c rcase, r *result) string {
 
 // ---- monitor for C13 (independent of the model; uses only the fake's ground truth) ----
 
-// cause: the way the accounting of channel ch was desynchronised before global position upto:
+// cause: the way the accounting of one of the channels chans was desynchronised before global position upto:
 // the transporter read a nack on a channel that stayed open (and went on using the channel), or
 // a Publish failed on a channel that stayed open.
-func cause(r *result, ch uint64, upto int) string {
+func cause(r *result, chans map[uint64]bool, upto int) string {
 	nack, perr := false, false
 	for _, k := range r.cons {
 		p := r.pubs[k.pub]
-		if k.seq <= upto && p.ch == ch && p.verdict == "nack" && !p.closing {
+		if k.seq <= upto && chans[p.ch] && p.verdict == "nack" && !p.closing {
 			nack = true
 		}
 	}
 	for _, p := range r.pubs {
-		if p.seq <= upto && p.ch == ch && p.verdict == "err" && !p.closing {
+		if p.seq <= upto && chans[p.ch] && p.verdict == "err" && !p.closing {
 			perr = true
 		}
 	}
@@ -563,22 +575,24 @@ func monitor(c rcase, r *result) []core.Violation {
 	for _, a := range r.anomalies {
 		vs = append(vs, core.Violation{Property: "C13", Signature: "harness-anomaly", What: a, Case: c})
 	}
-	// position (index into pubs) of the last publish made before each written report
-	lastPub := map[int]int{}
+	// channels the transporter published on while working on each batch
+	chansOf := map[int]map[uint64]bool{}
 	for _, p := range r.pubs {
-		lastPub[p.during] = p.idx
+		if chansOf[p.during] == nil {
+			chansOf[p.during] = map[uint64]bool{}
+		}
+		chansOf[p.during][p.ch] = true
 	}
 	for _, b := range r.written {
 		if len(c.Batches[b]) == 0 {
 			continue
 		}
-		lp, ok := lastPub[b]
+		chn, ok := chansOf[b]
 		if !ok {
 			vs = append(vs, core.Violation{Property: "C13", Signature: "written-without-any-publish",
 				What: fmt.Sprintf("batch %d reported written although nothing was published for it", b), Case: c})
 			continue
 		}
-		chn := r.pubs[lp].ch
 		for mi, m := range c.Batches[b] {
 			published, acked, read := false, false, false
 			for _, p := range r.pubs {
@@ -612,7 +626,7 @@ func monitor(c rcase, r *result) []core.Violation {
 	for _, k := range r.cons {
 		p := r.pubs[k.pub]
 		if p.during != k.during {
-			vs = append(vs, core.Violation{Property: "C13", Signature: "stale-confirm-counted-for-later-batch/" + cause(r, p.ch, k.seq),
+			vs = append(vs, core.Violation{Property: "C13", Signature: "stale-confirm-counted-for-later-batch/" + cause(r, map[uint64]bool{p.ch: true}, k.seq),
 				What: fmt.Sprintf("while working on batch %d the transporter read (and counted) the confirmation of tag %d on channel %d, which answers a publish made for batch %d", k.during, p.tag, p.ch, p.during), Case: c})
 			break // one per case is enough
 		}
